@@ -192,7 +192,11 @@ def predict_case(draw):
     for _ in range(draw(st.integers(1, 6))):
         j = draw(st.sampled_from(idx))
         uu = draw(st.one_of(st.floats(-0.5, 0.5), st.sampled_from([-0.5, 0.5, 0.0, 0.499999, -0.499999, 0.25, -0.4])))
-        qs.append([j, uu * pc["span"] * 60])
+        off = uu * pc["span"] * 60
+        if draw(st.integers(0, 5)) == 0:
+            # a few hundred nanoseconds inside the entry's own span: closer to the boundary than one float64 MJD can tell (0.6 us)
+            off = draw(st.sampled_from([-1, 1])) * (pc["span"] * 30 - draw(st.sampled_from([1e-7, 2e-7, 4e-7, 6e-7])))
+        qs.append([j, off])
     arr_shape = draw(st.sampled_from(["scalar", "1d", "2d", "col"]))
     return {"pc": pc, "subset": subset, "q": qs, "arr": arr_shape, "x": draw(st.floats(-0.25, 0.25)), "deriv_n": draw(st.integers(0, 2)),
             "subset_via": draw(st.sampled_from(["table", "table", "text"])), "warm_parent": draw(st.booleans()),
@@ -208,8 +212,15 @@ def pred_exact(p):
     return O.phase_fractions(p)
 
 
+def covering(ents, T):
+    """the entries a prediction at T may be evaluated from: those whose span contains T (100 ps of slack for the rounding of a Time); only when
+    there is none -- T in a gap of under a millisecond, which the validity intervals bridge -- the neighbours within 1 ms"""
+    c = [e for e in ents if e.contains(T, slack=F(1, 10**10))]
+    return c or [e for e in ents if e.contains(T)]
+
+
 def check_phase(got, T, ents, what):
-    c = [e for e in ents if e.contains(T)]
+    c = covering(ents, T)
     check(c, "{}: harness: no candidate entry", what)
     errs = [abs(got - e.phase(T)) for e in c]
     check(min(errs) <= F(1, 10**8), "{}: predicted phase {!r} differs from the tempo formula of every entry whose span contains the time by >= {:.3g} cycles "
@@ -289,8 +300,8 @@ def run_predict(case, stt):
     check(fa.unit == u.cycle / u.s ** (n + 1), "f0 unit {}", fa.unit)
     for g, T in zip(np.ravel(fa.value), flat_T):
         ok = False
-        for e in ents:
-            if e.contains(T):
+        for e in covering(ents, T):
+            if True:
                 ex, mag = e.deriv(T, n + 1)
                 if abs(F(float(g)) - ex) <= F(1, 10**9) * mag + F(1, 10**300):
                     ok = True
@@ -304,7 +315,7 @@ def run_predict(case, stt):
     for x in (0.0, case["x"] * pc["span"] * 60, -case["x"] * pc["span"] * 30):
         val = refv + F(float(pol(x)))
         Tx = T0 + F(x)
-        cands = [e for e in ents if e.contains(T0)]
+        cands = covering(ents, T0)
         errs = [abs(val - e.phase(Tx)) for e in cands]
         check(min(errs) <= F(1, 10**8) + F(4 * 2.2e-16) * abs(F(float(pol(x)))),
               "phasepol(t0): ref + pol({}) = {!r} differs from the entry formula at t0 + x by {:.3g} cycles", x, float(val), float(min(errs)))
